@@ -56,6 +56,15 @@ Proof.
 Qed.
 Print Assumptions deadlock_free.
 
+(* ---- lock_holder_never_blocked: whenever runStateLock is held, its holder can take a step (it is never blocked on the
+   buffered send or anywhere else) — the repaired line is what makes this true *)
+Theorem lock_holder_never_blocked : forall cfg n m s,
+  reachable repaired cfg n m s -> lock s = true -> holder_can_step repaired cfg s = true.
+Proof.
+  intros cfg n m s H. apply lock_holder_lemma. eapply inv1_reachable; exact H.
+Qed.
+Print Assumptions lock_holder_never_blocked.
+
 (* ---- stop_terminates, part 1: every step of every goroutine strictly decreases the measure mu, except the loop-head
    poll finding no request (which starts another attempt) *)
 Theorem stop_terminates_measure : forall cfg n m s l s',
